@@ -22,7 +22,7 @@ def ls_async_quick(prop):
     return ls(prop, q=60, t=1500, shards_q=2, shards_t=8, flavors="tokio-mt,thread-per-task")
 
 
-def pairs(q=20, t=300):
+def pairs(q=30, t=400):
     """hostile 'pairs' mode: fresh keys, each taken by two consecutive callers (one inserts, one removes)"""
     return dict(engine="hostile", shards=dict(quick=4, thorough=16), args=["--quick-n", str(q), "--thorough-n", str(t), "--mode", "pairs"])
 
@@ -31,7 +31,7 @@ def ga(q=1, t=6, shards_q=4, shards_t=16):
     return dict(engine="gated", shards=dict(quick=shards_q, thorough=shards_t), args=["--quick-n", str(q), "--thorough-n", str(t)])
 
 
-GA = "gated: for every pair (yield point inside a critical window: 11 on the processor, 5 on a client) x (racing operation: clear, remove/update/look-up of the same key, insert/remove of another key, in-place write, tick, wait) " \
+GA = "gated: for every pair (yield point inside a critical window: 16 reached by the processor, 8 by a client; entry points of the store and policy operations included) x (racing operation: clear, remove/update/look-up of the same key, insert/remove of another key, in-place write, tick, wait, insert_if_present on a still-buffered and on a resident key) " \
      "the thread is parked at the point on the real code while the racing operation runs to completion (or is seen to wait for the parked thread), then the history is quiesced and judged; quick: a third of the pairs per flavour, thorough: all pairs x 4 flavours x 6 seeds"
 
 
